@@ -110,7 +110,8 @@ class _Ctx:
                 if (a, b, c, d) != (s1, s2, s1, s2):
                     self.fail("wire-trip", gen, f"INIT seq1={s1} seq2={s2} arrived as {a},{b} (char) / {c},{d} (byte)")
                     return None
-                back = self.mod.InitSequenceStart.from_init_values(a, b)
+                back = (self.mod.InitSequenceStart.from_init_values(seq1=a, seq2=b) if (a + b) % 3 == 0
+                        else self.mod.InitSequenceStart.from_init_values(a, b))
                 comps = (s1, s2)
                 if s2 == 252: self.res.count("probe.init_seq2_at_252")
                 if s2 == 0: self.res.count("probe.init_seq2_at_0")
@@ -128,7 +129,8 @@ class _Ctx:
                 if (a, b) != (s1, s2):
                     self.fail("wire-trip", gen, f"PING seq1={s1} seq2={s2} arrived as {a},{b}")
                     return None
-                back = self.mod.PingSequenceStart.from_ping_values(a, b)
+                back = (self.mod.PingSequenceStart.from_ping_values(seq1=a, seq2=b) if (a + b) % 3 == 0
+                        else self.mod.PingSequenceStart.from_ping_values(a, b))
                 comps = (s1, s2)
                 if s2 == 251: self.res.count("probe.ping_seq2_at_251")
                 if value == 1756: self.res.count("probe.ping_value_max")
@@ -138,7 +140,8 @@ class _Ctx:
                     return None
                 w.add_char(value)
                 a = self.R(bytes(w.to_bytearray())).get_char()
-                back = self.mod.AccountReplySequenceStart.from_value(a)
+                back = (self.mod.AccountReplySequenceStart.from_value(value=a) if a % 3 == 0
+                        else self.mod.AccountReplySequenceStart.from_value(a))
                 comps = (value,)
                 if value == 239: self.res.count("probe.account_value_239")
         except ValueError as e:
